@@ -59,6 +59,13 @@ def to_json_doc(ast, variant=0):
     return d
 
 
+def has_counting(ast):
+    """AtLeast / AtMost somewhere: the constructors that take a list (the 'iter' way differs from 'str' only for them)."""
+    if ast[0] != 'C':
+        return False
+    return ast[1] in ('AtLeast', 'AtMost') or any(has_counting(a) for a in ast[3])
+
+
 def has_signed(ast):
     if ast[0] != 'C':
         return False
@@ -153,7 +160,7 @@ def check_formula(f, acc, fam, k, only_way=None):
     leaves = leaves_of(f)
     ids = list(leaves)
     expect = [ref.connective(f, dict(zip(ids, vals))) for vals in itertools.product((0, 1), repeat=len(ids))]
-    ways = ["var", "str", "iter"] + ([] if has_signed(f) else ["json"])
+    ways = ["var", "str"] + (["iter"] if has_counting(f) else []) + ([] if has_signed(f) else ["json"])
     counted = False
     for way in ways:
         if only_way is not None and way != only_way:
